@@ -21,6 +21,7 @@ mod ops_scalar;
 mod ops_edwards;
 mod ops_misc;
 mod ops_vec;
+mod ops_more;
 
 pub use curve25519_dalek::edwards::EdwardsPoint;
 pub use curve25519_dalek::montgomery::MontgomeryPoint;
@@ -65,6 +66,7 @@ fn dispatch(op: &str, e: &Value, ctx: &mut Ctx) -> Result<Value, String> {
         "sc" => ops_scalar::run(op, e, ctx),
         "ed" => ops_edwards::run(op, e, ctx),
         "vec" | "const" => ops_vec::run(op, e, ctx),
+        "tot" | "serde" | "ff" | "grp" => ops_more::run(op, e, ctx),
         _ => ops_misc::run(op, e, ctx),
     }
 }
